@@ -499,6 +499,21 @@ fn main() {
             set_key_form(form, &keys);
             *forms_seen.entry(format!("{form:?}")).or_default() += 1;
             let tag = |path: &str| if form == KeyForm::Literal { path.to_string() } else { format!("{path}, keys {form:?}") };
+            // the Current of a TraceparentCtxt only lives inside with_current: observed there
+            // (bare and behind one more erasure); trees built over it cannot be carried out
+            let (has_tp, is_tp) = tp_leaf(tree);
+            if has_tp {
+                if is_tp {
+                    *ops_seen.entry(format!("tpctxt:{}", tree["tp"].as_str().unwrap())).or_default() += 1;
+                    let direct = catch(|| with_tp_current(tree, |c| observe(&c, &keys)));
+                    judge(&tag("traceparent ctxt"), &direct, &mut rep, &mut drift);
+                    let erased = catch(|| with_tp_current(tree, |c| { let e: &dyn ErasedProps = &c; observe(&e, &keys) }));
+                    judge(&tag("traceparent ctxt, erased twice"), &erased, &mut rep, &mut drift);
+                } else {
+                    *ops_seen.entry("tpctxt:not-carried".to_string()).or_default() += 1;
+                }
+                continue;
+            }
             // type-erased, dynamic
             let dynamic = catch(|| observe(&interp(tree), &keys));
             judge(&tag("erased"), &dynamic, &mut rep, &mut drift);
